@@ -613,6 +613,19 @@ func (c *Client) delete(id transactionID) {
 	c.mux.Unlock()
 }
 
+// unregister removes t from the transactions if it is still the one registered
+// under id and reports whether it did so.
+func (c *Client) unregister(id transactionID, t *clientTransaction) bool {
+	c.mux.Lock()
+	defer c.mux.Unlock()
+	if cur, ok := c.t[id]; !ok || cur != t {
+		return false
+	}
+	delete(c.t, id)
+
+	return true
+}
+
 type buffer struct {
 	buf []byte
 }
@@ -657,26 +670,32 @@ func (c *Client) handleAgentCallback(event Event) { //nolint:cyclop
 	)
 	// Starting client transaction.
 	if startErr := c.start(transaction); startErr != nil {
-		c.delete(id)
+		// Not registered: the transaction is still ours alone.
 		event.Error = startErr
 		transaction.handle(event)
 		putClientTransaction(transaction)
 
 		return
 	}
+	// From here on the transaction is registered again: another event for
+	// the same id may complete and recycle it concurrently, so it is only
+	// completed here if this call is the one that unregisters it.
 	// Starting agent transaction.
 	if startErr := c.a.Start(id, timeOut); startErr != nil {
-		c.delete(id)
-		event.Error = startErr
-		transaction.handle(event)
-		putClientTransaction(transaction)
+		if c.unregister(id, transaction) {
+			event.Error = startErr
+			transaction.handle(event)
+			putClientTransaction(transaction)
+		}
 
 		return
 	}
 	// Writing message to connection again.
 	_, writeErr := c.c.Write(buff.buf)
 	if writeErr != nil {
-		c.delete(id)
+		if !c.unregister(id, transaction) {
+			return
+		}
 		event.Error = writeErr
 		// Stopping agent transaction instead of waiting until it's deadline.
 		// This will call handleAgentCallback with "ErrTransactionStopped" error
